@@ -111,8 +111,11 @@ def surface_normal_from_cylindrical_derivatives(fp, ft, r, t):
     """
     cost = np.cos(t)
     sint = np.sin(t)
-    x = fp * cost - 1/r * ft * sint
-    y = fp * sint + 1/r * ft * cost
+    # on the axis (r=0) the azimuthal derivative carries no slope; 1/r would turn the normal into NaN there
+    onaxis = r == 0
+    onebyr = np.where(onaxis, 0, 1 / np.where(onaxis, 1, r))
+    x = fp * cost - onebyr * ft * sint
+    y = fp * sint + onebyr * ft * cost
     return x, y
 
 
